@@ -49,10 +49,17 @@ def cases(ctx):
         else:
             ep, en = gen.easy(rng)
         sc, ec = gen.cfg(rng)
+        via = str(rng.choice(derive.VIAS))
+        if rng.random() < 0.08:  # bounded scores saturated at the ends of [0, 1], seen through the FraudScores subclass
+            pos, neg = np.round(rng.uniform(0, 1, len(pos)), 2), np.round(rng.uniform(0, 1, len(neg)), 2)
+            for arr in (pos, neg):
+                if rng.random() < 0.7:
+                    arr[int(rng.integers(0, len(arr)))] = float(rng.choice([0.0, 1.0]))
+            ec, via, kind = "pos", "fraud_view", "unit-saturated"
         extra = np.array([float(rng.uniform(-2, 0)), float(rng.uniform(1, 3)), float(rng.uniform(0, 1))])
         yield {"pos": pos, "neg": neg, "ep": ep, "en": en, "sc": sc, "ec": ec, "kind": kind,
                "targets": np.concatenate([EXTREME, extra]), "form": str(rng.choice(["array", "array", "scalar", "list", "2d", "pyint", "intarray", "0d"])),
-               "via": str(rng.choice(derive.VIAS)), "_seed": int(rng.integers(1 << 31))}
+               "via": via, "_seed": int(rng.integers(1 << 31))}
 
 
 def exhaustive(ctx):
